@@ -1096,7 +1096,7 @@ def ops_adv_tiny_interval():
     from happysimulator.components.advertising import AdPlatform, Advertiser
     _seed(503)
     out = {}
-    for iv in (NS, 1.5 * NS, 3 * NS, 1e-6 / 3):
+    for iv in (1.5 * NS, 3 * NS, 1e-6 / 3):          # exactly 1 ns: see ops_adv_one_ns_interval
         plat = AdPlatform("P")
         adv = Advertiser("a", product_price=100.0, production_cost=50.0, tiers=_tiers(), platform=plat,
                          evaluation_interval=iv)
@@ -1160,6 +1160,290 @@ def ops_sk_sketch_collectors():
     sim.run()
     return {"cms": cms.events_processed, "hll": hll.events_processed, "bloom": blo.events_processed,
             "card": hll.sketch.cardinality()}
+
+
+def ops_adv_one_ns_interval():
+    """evaluation_interval = 1 ns: the next evaluation is stamped Instant.from_seconds(now_s + interval)."""
+    from happysimulator.components.advertising import AdPlatform, Advertiser
+    _seed(504)
+    plat = AdPlatform("P")
+    adv = Advertiser("a", product_price=100.0, production_cost=50.0, tiers=_tiers(), platform=plat,
+                     evaluation_interval=NS)
+    sim = _sim([plat, adv], end=2e-6)
+    sim.schedule(adv.start_events())
+    sim.run()
+    return {"periods": adv.stats.periods_evaluated}
+
+
+def ops_ind_perishable_one_ns_sweep():
+    """spoilage_check_interval_s = 1 ns: next sweep stamped Instant.from_seconds(now_s + interval)."""
+    from happysimulator.components.industrial import PerishableInventory
+    _seed(128)
+    inv = PerishableInventory("pinv", initial_stock=3, shelf_life_s=1e-7, spoilage_check_interval_s=NS,
+                              reorder_point=1, order_quantity=2, lead_time=5 * NS)
+    sim = _sim([inv], end=2e-6)
+    sim.schedule(inv.start_event())
+    _inject(sim, inv, [0.0, 1e-7, 2e-7, 1e-6], etype="Consume")
+    sim.run()
+    return {"sp": inv.stats.total_spoiled, "re": inv.stats.reorders}
+
+
+# ---------------------------------------------------------------------------------------------
+# queue_policies (driven inside a Server / QueuedResource)
+# ---------------------------------------------------------------------------------------------
+
+def _qp_run(policy_factory, service, times=None, rate=None, stop=2.0, end=None, concurrency=1, ctx=None, sctx=None):
+    sink = _sink()
+    holder = {}
+    pol = policy_factory(lambda: holder["srv"].now)
+    srv = _server("srv", service, sink, concurrency=concurrency, policy=pol)
+    holder["srv"] = srv
+    sources = [_source(srv, rate, stop, ctx=sctx)] if rate else None
+    sim = _sim([srv, sink], end=end, sources=sources)
+    if times:
+        _inject(sim, srv, times, ctx=ctx)
+    sim.run()
+    return pol, srv, sink
+
+
+def ops_qp_codel():
+    from happysimulator.components.queue_policies import CoDelQueue
+    _seed(701)
+    pol, srv, sink = _qp_run(lambda clk: CoDelQueue(target_delay=0.005, interval=0.1, clock_func=clk),
+                             service=0.05, rate=40, stop=3.0, end=5.0)
+    st = pol.stats
+    return {"enq": st.enqueued, "deq": st.dequeued, "drop": st.dropped, "sink": sink.events_received}
+
+
+def ops_qp_codel_hostile():
+    from happysimulator.components.queue_policies import CoDelQueue
+    _seed(702)
+    out = {}
+    cfgs = {"ns_target": (NS, TH, None), "h3": (H3 / 10, H3, 4), "interval_lt_target": (P7, NS, None),
+            "m1": (M1 / 100, M1 / 10, 3)}
+    for key, (tgt, iv, cap) in cfgs.items():
+        pol, srv, sink = _qp_run(lambda clk: CoDelQueue(target_delay=tgt, interval=iv, capacity=cap, clock_func=clk),
+                                 service=TH / 4, times=[0.0] * 10 + [H3] * 6 + [TH, TH, P7, P7, P7, M1, M1, 2.0, 2.0])
+        st = pol.stats
+        out[key] = [st.enqueued, st.dequeued, st.dropped, st.capacity_rejected, sink.events_received]
+    return out
+
+
+def ops_qp_red():
+    from happysimulator.components.queue_policies import REDQueue
+    _seed(703)
+    out = {}
+    pol, srv, sink = _qp_run(lambda clk: REDQueue(min_threshold=2, max_threshold=6, max_probability=0.5, weight=0.3),
+                             service=H3 / 3, rate=30, stop=3.0, end=4.5)
+    out["src"] = [pol.stats.enqueued, pol.stats.dropped_probabilistic, pol.stats.dropped_forced, sink.events_received]
+    pol, srv, sink = _qp_run(lambda clk: REDQueue(min_threshold=0, max_threshold=1, max_probability=1.0, capacity=2,
+                                                  weight=0.9),
+                             service=P7, times=[0.0] * 8 + [P7] * 4 + [2 * P7, M1, 3.0])
+    out["burst"] = [pol.stats.enqueued, pol.stats.dropped_probabilistic, pol.stats.dropped_forced, sink.events_received]
+    return out
+
+
+def ops_qp_fair():
+    from happysimulator.components.queue_policies import FairQueue
+    _seed(704)
+    pol, srv, sink = _qp_run(lambda clk: FairQueue(get_flow_id=lambda e: e.context["tenant"], max_flows=3,
+                                                   per_flow_capacity=4),
+                             service=TH / 3, concurrency=2,
+                             times=[0.0] * 14 + [H3] * 5 + [TH, P7, M1, M1],
+                             ctx=lambda i: {"tenant": f"t{(i * i) % 5}"})
+    st = pol.stats
+    return {"enq": st.enqueued, "deq": st.dequeued, "rejf": st.rejected_flow_capacity, "rejm": st.rejected_max_flows,
+            "sink": sink.events_received}
+
+
+def ops_qp_wfq():
+    from happysimulator.components.queue_policies import WeightedFairQueue
+    _seed(705)
+    rng = random.Random(5)
+    pol, srv, sink = _qp_run(lambda clk: WeightedFairQueue(get_flow_id=lambda e: e.context["tenant"],
+                                                           get_weight=lambda f: {"gold": 4, "silver": 2}.get(f, 1),
+                                                           capacity=12, per_flow_capacity=6),
+                             service=M1 / 20, rate=35, stop=2.5, end=4.0,
+                             sctx=lambda t, n: {"created_at": t, "tenant": rng.choice(["gold", "silver", "bronze", "tin"])})
+    st = pol.stats
+    return {"enq": st.enqueued, "deq": st.dequeued, "rej": st.rejected_capacity, "sink": sink.events_received}
+
+
+def ops_qp_deadline():
+    from happysimulator.components.queue_policies import DeadlineQueue
+    _seed(706)
+    out = {}
+    # deadline shorter than the service time (most expire), longer (none expire), equal, and 1 ns
+    for key, (dl, svc) in {"short": (H3, P7), "long": (5.0, TH), "eq": (TH, TH), "ns": (NS, H3)}.items():
+        pol, srv, sink = _qp_run(lambda clk: DeadlineQueue(get_deadline=lambda e: e.context["created_at"] + dl,
+                                                           capacity=8, clock_func=clk),
+                                 service=svc, times=[0.0] * 6 + [H3, H3, TH, TH, P7, M1, M1, 2.0])
+        st = pol.stats
+        out[key] = [st.enqueued, st.dequeued, st.expired, st.capacity_rejected, sink.events_received]
+    return out
+
+
+def ops_qp_deadline_source_end():
+    from happysimulator.components.queue_policies import DeadlineQueue
+    _seed(707)
+    rng = random.Random(6)
+    pol, srv, sink = _qp_run(lambda clk: DeadlineQueue(get_deadline=lambda e: e.context["created_at"] + e.context["slack"],
+                                                       clock_func=clk),
+                             service=0.04, rate=35, stop=3.0, end=4.0, concurrency=1,
+                             sctx=lambda t, n: {"created_at": t, "slack": rng.choice(HOSTILE[:4]) / 3})
+    st = pol.stats
+    return {"enq": st.enqueued, "deq": st.dequeued, "exp": st.expired, "sink": sink.events_received}
+
+
+def ops_qp_adaptive_lifo():
+    from happysimulator.components.queue_policies import AdaptiveLIFO
+    _seed(708)
+    pol, srv, sink = _qp_run(lambda clk: AdaptiveLIFO(congestion_threshold=3, capacity=7), service=TH / 2,
+                             times=[0.0] * 10 + [H3] * 3 + [TH, P7, P7, M1, 2.0, 2.0, 2.0, 2.0, 2.0])
+    st = pol.stats
+    return {"enq": st.enqueued, "fifo": st.dequeued_fifo, "lifo": st.dequeued_lifo, "sw": st.mode_switches,
+            "sink": sink.events_received}
+
+
+def ops_qp_balking_over_codel_and_inspection_deadline():
+    from happysimulator.components.industrial import BalkingQueue, InspectionStation
+    from happysimulator.components.queue_policies import CoDelQueue, DeadlineQueue
+    _seed(709)
+    pol, srv, sink = _qp_run(lambda clk: BalkingQueue(CoDelQueue(target_delay=TH / 10, interval=H3, clock_func=clk),
+                                                      balk_threshold=3, balk_probability=0.5),
+                             service=0.08, rate=30, stop=2.0, end=3.5)
+    ok, bad = _sink("ok"), _sink("bad")
+    holder = {}
+    dq = DeadlineQueue(get_deadline=lambda e: e.context["created_at"] + P7, clock_func=lambda: holder["st"].now)
+    st = InspectionStation("insp", ok, bad, inspection_time=H3, pass_rate=0.6, policy=dq)
+    holder["st"] = st
+    sim = _sim([st, ok, bad])
+    _inject(sim, st, [0.0] * 5 + [H3, TH, P7, M1])
+    sim.run()
+    return {"balked": pol.balked, "sink": sink.events_received, "insp": st.inspected, "expired": dq.stats.expired}
+
+
+# ---------------------------------------------------------------------------------------------
+# cross-family multi-step flows
+# ---------------------------------------------------------------------------------------------
+
+def ops_x_jobs_drive_gate_inventory():
+    from happysimulator.components.industrial import GateController, InventoryBuffer
+    from happysimulator.components.scheduling import JobDefinition, JobScheduler
+    _seed(801)
+    ful, sup = _sink("ful"), _sink("sup")
+    gate = GateController("gate", ful, schedule=[(TH, P7), (M1, 2.0)], initially_open=False, queue_capacity=5)
+    inv = InventoryBuffer("inv", initial_stock=4, reorder_point=2, order_quantity=3, lead_time=M1, supplier=sup,
+                          downstream=gate)
+    sch = JobScheduler("cron", tick_interval=TH)
+    sch.add_job(JobDefinition("pick", inv, "Consume", interval=H3, priority=2, context={"quantity": 2}))
+    sch.add_job(JobDefinition("pick1", inv, "Consume", interval=P7, priority=1, depends_on=["pick"]))
+    sim = _sim([sch, inv, gate, ful, sup], end=6.0)
+    sim.schedule(sch.start())
+    sim.schedule(gate.start_events())
+    sim.run()
+    return {"trig": sch.stats.jobs_triggered, "re": inv.stats.reorders, "so": inv.stats.stockouts,
+            "pass": gate.stats.passed_through}
+
+
+def ops_x_agents_buy_perishables():
+    from happysimulator import Event
+    from happysimulator.components.behavior import Environment, Population, UtilityModel, price_change
+    from happysimulator.components.industrial import ConveyorBelt, PerishableInventory
+    from happysimulator.components.sketching import TopKCollector
+    _seed(802)
+    top = TopKCollector("top", k=3, value_extractor=lambda e: e.context.get("buyer"))
+    belt = ConveyorBelt("belt", top, transit_time=H3, capacity=4)
+    inv = PerishableInventory("pinv", initial_stock=6, shelf_life_s=M1, spoilage_check_interval_s=TH, reorder_point=2,
+                              order_quantity=5, lead_time=P7, downstream=belt)
+    pop = Population.uniform(8, decision_model=UtilityModel(_util, temperature=1.0), graph_type="complete", seed=3)
+
+    def buy(agent, choice, event):
+        return Event(time=agent.now, event_type="Consume", target=inv,
+                     context={"created_at": agent.now, "quantity": 1 + len(agent.name) % 2, "buyer": agent.name})
+    for k, a in enumerate(pop.agents):
+        a.action_delay = (TH, 0.0, H3, NS)[k % 4]
+        a.on_action("buy", buy)
+    env = Environment("env", agents=pop.agents, social_graph=pop.social_graph, seed=2)
+    sim = _sim([env, *pop.agents, inv, belt, top])          # no end time: sweeps are daemon
+    sim.schedule(inv.start_event())
+    for k, t in enumerate([0.0, H3, TH, TH, P7, M1, 2.0, 2.0 + TH]):
+        sim.schedule(price_change(t, env, "milk", 3.0, 3.0 - 0.2 * k))
+    sim.run()
+    return {"dec": pop.stats.total_decisions, "sp": inv.stats.total_spoiled, "so": inv.stats.stockouts,
+            "top": top.events_processed}
+
+
+def ops_x_pool_batch_shift_quantiles():
+    from happysimulator.components.industrial import BatchProcessor, Shift, ShiftedServer, ShiftSchedule
+    from happysimulator.components.scheduling import WorkStealingPool
+    from happysimulator.components.sketching import QuantileEstimator
+    _seed(803)
+    est = QuantileEstimator("lat", value_extractor=lambda e: (e.time - e.context["created_at"]).to_seconds())
+    srv = ShiftedServer("pack", ShiftSchedule([Shift(0.0, 1.25, 2), Shift(1.25, 2.5, 1), Shift(2.5, 9.0, 3)]),
+                        service_time=TH / 2, downstream=est)
+    bp = BatchProcessor("bp", srv, batch_size=4, process_time=H3, timeout_s=P7)
+    pool = WorkStealingPool("pool", num_workers=3, downstream=bp, default_processing_time=M1 / 10)
+    src = _source(pool, 20, 3.0)
+    sim = _sim([pool, bp, srv, est], end=6.0, sources=[src])
+    sim.run()
+    return {"pool": pool.stats.tasks_completed, "b": bp.batches_processed, "srv": srv.processed,
+            "est": est.events_processed}
+
+
+def ops_x_split_merge_over_infra():
+    from happysimulator.components.industrial import SplitMerge
+    from happysimulator.components.infrastructure import HDD, CPUScheduler, DiskIO, FairShare, PageCache
+    _seed(804)
+    sink = _sink()
+    cpu = CPUScheduler("cpu", policy=FairShare(quantum_s=TH / 100), context_switch_s=NS)
+    disk = DiskIO("disk", profile=HDD(seek_time_s=H3 / 100))
+    cache = PageCache("pc", capacity_pages=16, disk_read_latency_s=M1 / 1000)
+
+    def cpu_body(w, ev):
+        yield from cpu.execute(f"c{ev.context['i']}-{w.name}", cpu_time_s=0.01 * (1 + ev.context["i"] % 3))
+        ev.context["reply_future"].resolve("cpu")
+
+    def disk_body(w, ev):
+        yield from disk.read(8192)
+        yield from disk.write(100)
+        ev.context["reply_future"].resolve("disk")
+
+    def cache_body(w, ev):
+        yield from cache.read_page(ev.context["i"])
+        ev.context["reply_future"].resolve("cache")
+    ws = [_driver("wcpu", cpu_body), _driver("wdisk", disk_body), _driver("wcache", cache_body)]
+    sm = SplitMerge("sm", ws, sink)
+    sim = _sim([sm, cpu, disk, cache, *ws, sink])
+    _inject(sim, sm, [0.0, 0.0, 0.0, 0.005, H3 / 10, TH / 10, P7 / 10, M1 / 10])
+    sim.run()
+    return {"merged": sm.stats.merges_completed, "sink": sink.events_received}
+
+
+def ops_x_preempt_then_pooled():
+    from happysimulator import Event
+    from happysimulator.components.industrial import ConditionalRouter, PooledCycleResource, PreemptibleResource
+    _seed(805)
+    sink, lost = _sink(), _sink("lost")
+    pool = PooledCycleResource("wash", pool_size=1, cycle_time=TH, downstream=sink, queue_capacity=2)
+    router = ConditionalRouter("r", [(lambda e: e.context["i"] % 2 == 0, pool)], default=lost)
+    dock = PreemptibleResource("dock", capacity=1)
+
+    def body(w, ev):
+        i = ev.context["i"]
+        g = yield dock.acquire(1, priority=float(i % 3), preempt=True)
+        yield (H3, P7, NS)[i % 3]
+        if g.preempted:
+            return [Event(time=w.now, event_type="Bumped", target=lost, context=ev.context)]
+        g.release()
+        return [Event(time=w.now, event_type="Wash", target=router, context=ev.context)]
+    ws = [_driver(f"truck{k}", body) for k in range(8)]
+    sim = _sim([dock, router, pool, sink, lost, *ws], end=9.0)
+    for k, w in enumerate(ws):
+        _inject(sim, w, [(0.0, 0.0, 0.0, H3, H3, TH, P7, M1)[k]], etype="go", ctx={"i": k})
+    sim.run()
+    return {"pre": dock.stats.preemptions, "washed": pool.completed, "sink": sink.events_received,
+            "lost": lost.events_received}
 
 
 SCENARIOS = {}
